@@ -327,4 +327,24 @@ func init() {
 				Thorough: grid([]string{"M", "legacy", "len", "op", "sym"}, []int{3, 8, 8000, 8001, 8192, 55440}, []int{0, 1}, []int{1, 2, 3}, []int{1, 2}, []int{1})},
 		},
 	})
+
+	Properties = append(Properties, &PropertySpec{
+		ID: "C10",
+		Harnesses: []HarnessSpec{
+			{Name: "C10_reader", Expect: []string{"done", "accepted", "rejected"}, Witnesses: 8,
+				Quick:    append(grid([]string{"M", "legacy", "lines", "finalNL", "kset"}, []int{8000}, []int{0, 1}, []int{1}, []int{0, 1}, []int{0}), grid([]string{"M", "legacy", "lines", "finalNL", "kset"}, []int{8000}, []int{0, 1}, []int{2}, []int{0, 1}, []int{1})...),
+				Thorough: append(grid([]string{"M", "legacy", "lines", "finalNL", "kset"}, []int{8, 8000}, []int{0, 1}, []int{1, 2}, []int{0, 1}, []int{0}), grid([]string{"M", "legacy", "lines", "finalNL", "kset"}, []int{8000}, []int{0, 1}, []int{3}, []int{0, 1}, []int{1})...)},
+		},
+	})
+	Properties = append(Properties, &PropertySpec{
+		ID: "C09", UsesEvalModel: true,
+		Harnesses: []HarnessSpec{
+			{Name: "C09_loader", Expect: []string{"end", "roundtrip-instruction"}, Witnesses: 4,
+				Quick:    append(grid([]string{"M", "legacy", "len", "op", "finalNL", "vary"}, []int{8000}, []int{0, 1}, []int{1}, []int{1, 0, 14}, []int{1}, []int{0}), grid([]string{"M", "legacy", "len", "op", "finalNL", "vary"}, []int{8000}, []int{0, 1}, []int{1, 2}, []int{1}, []int{0, 1}, []int{1})...),
+				Thorough: append(grid([]string{"M", "legacy", "len", "op", "finalNL", "vary"}, []int{8, 8000, 8192}, []int{0, 1}, []int{1}, []int{0, 1, 2, 3, 7, 10, 11, 12, 13, 14, 15}, []int{1}, []int{0}), grid([]string{"M", "legacy", "len", "op", "finalNL", "vary"}, []int{8, 8000, 8192}, []int{0, 1}, []int{1, 2, 3}, []int{1, 14}, []int{0, 1}, []int{1})...)},
+			{Name: "C09_assembler", Expect: []string{"end", "roundtrip-instruction"}, Witnesses: 4,
+				Quick:    append(grid([]string{"M", "legacy", "len", "op", "vary"}, []int{8000}, []int{0, 1}, []int{1}, []int{1, 0, 14}, []int{0}), grid([]string{"M", "legacy", "len", "op", "vary"}, []int{8000}, []int{0, 1}, []int{1, 2}, []int{1}, []int{1})...),
+				Thorough: append(grid([]string{"M", "legacy", "len", "op", "vary"}, []int{8, 8000, 8192}, []int{0, 1}, []int{1}, []int{0, 1, 2, 3, 7, 10, 11, 12, 13, 14, 15}, []int{0}), grid([]string{"M", "legacy", "len", "op", "vary"}, []int{8, 8000, 8192}, []int{0, 1}, []int{1, 2, 3}, []int{1, 14}, []int{1})...)},
+		},
+	})
 }
